@@ -149,7 +149,25 @@ impl ChannelHandle {
         self.handle.call_nowait(method)
     }
 
-    pub(crate) fn send_content(
+    // Send a method that carries content (a publish) and then the content. The pieces
+    // travel to the I/O thread one by one but are marked as belonging together.
+    pub(crate) fn send_method_with_content<M: IntoAmqpClass + Debug>(
+        &mut self,
+        method: M,
+        content: &[u8],
+        class_id: u16,
+        properties: &AMQPProperties,
+    ) -> Result<()> {
+        trace!(
+            "sending method with content on channel {}: {:?}",
+            self.channel_id(),
+            method
+        );
+        self.handle.send_content_method(method)?;
+        self.send_content(content, class_id, properties)
+    }
+
+    fn send_content(
         &mut self,
         mut content: &[u8],
         class_id: u16,
@@ -170,7 +188,8 @@ impl ChannelHandle {
                 self.channel_id(),
                 self.frame_max
             );
-            self.handle.send_content_body(&content[..self.frame_max])?;
+            self.handle
+                .send_content_body(&content[..self.frame_max], true)?;
             content = &content[self.frame_max..];
         }
         if !content.is_empty() {
@@ -179,7 +198,7 @@ impl ChannelHandle {
                 self.channel_id(),
                 content.len()
             );
-            self.handle.send_content_body(content)?;
+            self.handle.send_content_body(content, false)?;
         }
         Ok(())
     }
